@@ -291,3 +291,25 @@ def reachable_sectors(model):
     from simlab.ref import dense
     q = dense.site_charges(model)
     return sorted({tuple(r) for r in q.tolist()})
+
+
+def gen_density_terms(rnd, sites, qn_size):
+    """Model Hamiltonian of density-density type with EQUAL couplings: sum_i c d_i + sum_{i<j} c d_i d_j over random subsets,
+    where d_i is ONE fixed neutral Hermitian single-site operator per site (number operator, Z, ...)."""
+    local = []
+    for site in sites:
+        sy, d, q, _h = elementary(site, rnd, qn_size, neutral_only=True, hermitian_only=True)
+        local.append((sy, [list(z) if isinstance(z, tuple) else z for z in d], q))
+    c = rnd.choice([1.0, 1.0, -1.0, 0.5])
+    n = len(sites)
+    terms = []
+    for i in range(n):
+        if rnd.random() < 0.5:
+            sy, d, q = local[i]
+            terms.append({"sym": sy, "dofs": list(d), "factor": [c, 0.0], "qn": [list(x) for x in q]})
+    for i in range(n):
+        for j in range(i + 1, n):
+            if rnd.random() < 0.4:
+                terms.append({"sym": local[i][0] + " " + local[j][0], "dofs": list(local[i][1]) + list(local[j][1]), "factor": [c, 0.0],
+                              "qn": [list(x) for x in local[i][2]] + [list(x) for x in local[j][2]]})
+    return terms
